@@ -602,7 +602,7 @@ def correspond(ctx, proof_ok=True):
                       {'kind': 'broken-correspondence', 'item': 'oracle: str(np.floatN(float(t))) == t', 'examples': bo[:10]}, False)
     rng = ctx.rng
     hists = []
-    for i in range(ctx.n(250, 3000)):
+    for i in range(ctx.n(200, 3000)):
         doc, ops = gen_history(rng, rng.randint(1, 12))
         hists.append((doc, rng.random() < 0.4, ops))
     for i in range(ctx.n(70, 800)):
@@ -615,7 +615,8 @@ def correspond(ctx, proof_ok=True):
             hists.append((doc, True, ops))
     else:
         for k, (doc, ops) in enumerate(exhaustive_histories(3)):
-            hists.append((doc, k % 3 == 0, ops))
+            if len(ops) <= 2 or k % 2 == 0:           # all sequences of length <= 2, every other one of length 3
+                hists.append((doc, k % 3 == 0, ops))
     results, infos, verdicts, terms = evaluate(ctx, hists)
 
     dist = {}
